@@ -189,6 +189,22 @@ async def check_union(ctx, case):
     ref_union = {k: ra[k] | rb[k] for k in ra}
     compare_extract(ctx, f"extract({a!r}) + extract({b!r})", summed[1], ref_union)
     compare_extract(ctx, f"extract({composed!r})", oc[1], ref_union)
+    # the same extract object used in a second sum (a template extract combined with several others): the union law must hold again
+    c = case.get("c")
+    if c is not None:
+        rc3 = ref_extract(c, resolve, replace)
+        o3 = await real_extract(c, resolve, replace)
+        if not isinstance(rc3, tuple) and o3[0] == "ok":
+            second = capture(lambda: oa[1] + o3[1])
+            ctx.count("union_second_sums")
+            if second[0] != "ok":
+                ctx.violation("extract-raises", f"extract({a!r}) + extract({c!r}) (second sum with the same left summand) {describe(second)}")
+                return
+            compare_extract(ctx, f"extract({a!r}) + extract({c!r}) after the same left summand was already added to extract({b!r})", second[1], {k: ra[k] | rc3[k] for k in ra})
+            again = await real_extract(a, resolve, replace)
+            if again[0] == "ok" and again[1] != oa[1]:
+                ctx.violation("extract-union", f"extract({a!r}) was changed by being used as a summand: now {oa[1]!r}, extracted afresh {again[1]!r}")
+                return
     for attr in ("requirement_constraint_keys", "hint_keys", "format_constraint_keys"):
         if getattr(summed[1], attr) != getattr(oc[1], attr):
             ctx.violation("extract-union", f"{attr}: extract(A)+extract(B) = {getattr(summed[1], attr)} but extract('(A) op (B)') = {getattr(oc[1], attr)} for A={a!r}, B={b!r}")
@@ -270,7 +286,8 @@ async def run(ctx):
     for i in range(ctx.budget(250, 20_000)):
         a = G.join_tokens(G.gen_tokens(rng, max_items=4, depth=1, atom=atom_c18), rng)
         b = G.join_tokens(G.gen_tokens(rng, max_items=4, depth=1, atom=atom_c18), rng)
-        await check_union(ctx, {"a": a, "b": b, "resolve": rng.random() < 0.5, "replace": rng.random() < 0.5})
+        c = G.join_tokens(G.gen_tokens(rng, max_items=4, depth=1, atom=atom_c18), rng)
+        await check_union(ctx, {"a": a, "b": b, "c": c, "resolve": rng.random() < 0.5, "replace": rng.random() < 0.5})
     # ---- the product: all (m, n) ----------------------------------------------------------------------------------
     max_m, max_n = (4, 5) if ctx.quick else (6, 7)
     idx = 0
